@@ -1,3 +1,482 @@
 package main
 
-func cmdCheck(args []string) int { return 2 }
+import (
+	"crypto/sha256"
+	"encoding/hex"
+	"encoding/json"
+	"flag"
+	"fmt"
+	"os"
+	"path/filepath"
+	"regexp"
+	"sort"
+	"strconv"
+	"strings"
+	"time"
+
+	"govc/internal/vc"
+)
+
+// Plan: what a property check verifies.
+type Unit struct {
+	Func    string `json:"func,omitempty"`    // function key relative to the module: "internal/pkg::name"
+	Lemma   string `json:"lemma,omitempty"`   // lemma name
+	Builtin string `json:"builtin,omitempty"` // constructor of a built-in expression function (schema-derived contract)
+	Mode    string `json:"mode,omitempty"`    // "" (mathematical integers) | "bv" (64-bit machine integers)
+	Sweep   string `json:"sweep,omitempty"`   // package path: zero-annotation panic sweep of every function in it
+}
+
+type Unclaimed struct {
+	Match  string `json:"match"`
+	Reason string `json:"reason"`
+}
+
+type Plan struct {
+	Packages   []string    `json:"packages"`
+	Units      []Unit      `json:"units"`
+	Unclaimed  []Unclaimed `json:"unclaimed"`
+	Decided    []string    `json:"decided"`
+	NotDecided []string    `json:"not_decided"`
+	Trusted    []string    `json:"trusted"`
+	Kinds      []string    `json:"kinds"` // restrict claimed obligations to these kinds (empty = all)
+}
+
+type Finding struct {
+	Property   string `json:"property"`
+	Obligation string `json:"obligation"`
+	Status     string `json:"status"` // finding | fixed
+	Commit     string `json:"commit,omitempty"`
+	What       string `json:"what"`
+	Residual   string `json:"residual,omitempty"` // spec expression: the failing cases excused by this finding
+	Line       string `json:"line,omitempty"`
+}
+
+type FindingsFile struct {
+	Findings []Finding `json:"findings"`
+}
+
+func cmdCheck(args []string) int {
+	fs := flag.NewFlagSet("check", flag.ExitOnError)
+	repo := fs.String("repo", "/repo", "repository")
+	verif := fs.String("verif", "/verif", "verification directory")
+	prop := fs.String("prop", "", "property id")
+	tier := fs.String("tier", "quick", "quick | thorough")
+	seed := fs.Int("seed", 0, "seed")
+	_ = fs.Parse(args)
+	if s := os.Getenv("VERIF_SEED"); s != "" {
+		if n, err := strconv.Atoi(s); err == nil {
+			*seed = n
+		}
+	}
+	if t := os.Getenv("VERIF_TIER"); t == "quick" || t == "thorough" {
+		if !flagSet(fs, "tier") {
+			*tier = t
+		}
+	}
+	t0 := time.Now()
+	engineErr := func(format string, a ...any) int {
+		fmt.Printf("ENGINE-ERROR property=%s "+format+"\n", append([]any{*prop}, a...)...)
+		return 2
+	}
+	plans := map[string]*Plan{}
+	data, err := os.ReadFile(filepath.Join(*verif, "specs", "props.json"))
+	if err != nil {
+		return engineErr("%v", err)
+	}
+	if err := json.Unmarshal(data, &plans); err != nil {
+		return engineErr("props.json: %v", err)
+	}
+	plan := plans[*prop]
+	if plan == nil {
+		return engineErr("no plan for property")
+	}
+	var ff FindingsFile
+	if data, err := os.ReadFile(filepath.Join(*verif, "known_findings.json")); err == nil {
+		if err := json.Unmarshal(data, &ff); err != nil {
+			return engineErr("known_findings.json: %v", err)
+		}
+	}
+	c, err := vc.Load(*repo, plan.Packages)
+	if err != nil {
+		fmt.Println(err)
+		return engineErr("cannot load packages (does the tree compile with -tags verif?)")
+	}
+	if err := c.LoadExternSpecs(filepath.Join(*verif, "specs", "extern")); err != nil {
+		fmt.Println(err)
+		return engineErr("extern specs")
+	}
+	if err := c.LoadRepoSpecs(); err != nil {
+		fmt.Println(err)
+		return engineErr("contract files")
+	}
+	for _, f := range ff.Findings {
+		if f.Property == *prop && f.Status == "finding" && f.Residual != "" {
+			c.FindingResidual[f.Obligation] = f.Residual
+		}
+	}
+	cbv := c.Fork(true)
+	loadS := time.Since(t0).Seconds()
+
+	type unitRep struct {
+		unit Unit
+		rep  *vc.FuncReport
+	}
+	var reps []unitRep
+	var all []*vc.Obligation
+	funcHashes := map[string]string{}
+	usedExtern := map[string]bool{}
+	usedModular := map[string]bool{}
+	for _, u := range plan.Units {
+		ctx := c
+		if u.Mode == "bv" {
+			ctx = cbv
+		}
+		var units []Unit
+		if u.Sweep != "" {
+			for _, k := range ctx.FunctionsOfPackage(ctx.ModulePath + strings.TrimPrefix("/"+u.Sweep, "/.")) {
+				units = append(units, Unit{Func: k, Mode: u.Mode})
+			}
+		} else {
+			units = []Unit{u}
+		}
+		for _, u := range units {
+			var rep *vc.FuncReport
+			var err error
+			switch {
+			case u.Func != "":
+				key := u.Func
+				if !strings.HasPrefix(key, ctx.ModulePath) {
+					key = ctx.ModulePath + "/" + u.Func
+					key = strings.Replace(key, "/::", "::", 1)
+				}
+				rep, err = ctx.VerifyFunction(key)
+				if err == nil {
+					funcHashes[rep.Name] = ctx.SourceHash(key)
+				}
+			case u.Lemma != "":
+				rep, err = ctx.VerifyLemma(u.Lemma)
+			case u.Builtin != "":
+				key := ctx.ModulePath + "/" + u.Builtin
+				rep, err = ctx.VerifyBuiltin(key)
+				if err == nil {
+					funcHashes[rep.Name] = ctx.SourceHash(key)
+				}
+			}
+			if err != nil {
+				fmt.Println(err)
+				return engineErr("verification of unit %+v could not be set up", u)
+			}
+			if rep.Aborted != "" {
+				return engineErr("unit %s aborted: %s", rep.Name, rep.Aborted)
+			}
+			for k := range rep.Extern {
+				usedExtern[k] = true
+			}
+			for k := range rep.Modular {
+				usedModular[k] = true
+			}
+			reps = append(reps, unitRep{u, rep})
+			all = append(all, rep.Obligations...)
+		}
+	}
+	for _, ctx := range []*vc.Ctx{c, cbv} {
+		if len(ctx.Errors) > 0 {
+			for _, e := range ctx.Errors {
+				fmt.Println(e)
+			}
+			return engineErr("contract errors")
+		}
+	}
+	if len(all) == 0 {
+		return engineErr("no obligations generated")
+	}
+	opts := vc.SolverOpts{TimeoutSec: 30, FirstTimeout: 4, Workers: 16, Seed: *seed, WantModel: true}
+	if *tier == "thorough" {
+		opts.TimeoutSec = 120
+		opts.AllAgree = true
+		opts.Workers = 5
+	}
+	tS := time.Now()
+	res := vc.SolveAll(all, opts)
+	solveS := time.Since(tS).Seconds()
+
+	// aggregate by obligation name
+	type agg struct {
+		name    string
+		kind    string
+		obs     []*vc.Obligation
+		bad     []*vc.Obligation
+		secs    float64
+		solvers map[string]int
+		cover   bool
+	}
+	byName := map[string]*agg{}
+	var names []string
+	solverCount := map[string]int{}
+	solverSecs := 0.0
+	maxSecs := 0.0
+	seenQ := map[string]bool{}
+	for _, ob := range all {
+		a := byName[ob.Name]
+		if a == nil {
+			a = &agg{name: ob.Name, kind: ob.Kind, solvers: map[string]int{}, cover: ob.Cover}
+			byName[ob.Name] = a
+			names = append(names, ob.Name)
+		}
+		r := res[ob]
+		a.obs = append(a.obs, ob)
+		a.solvers[r.Solver]++
+		h := vc.QueryHash(ob.Query)
+		if !seenQ[h] {
+			seenQ[h] = true
+			solverCount[r.Solver]++
+			solverSecs += r.Seconds
+			if r.Seconds > maxSecs {
+				maxSecs = r.Seconds
+			}
+			a.secs += r.Seconds
+		}
+		if r.Status == "disagree" {
+			return engineErr("solvers disagree on %s: %v", ob.Name, r.All)
+		}
+		ok := r.Status == "unsat"
+		if ob.Cover {
+			ok = r.Status == "sat"
+		}
+		if !ok {
+			a.bad = append(a.bad, ob)
+		}
+	}
+	var unclaimedRe []*regexp.Regexp
+	for _, u := range plan.Unclaimed {
+		re, err := regexp.Compile(u.Match)
+		if err != nil {
+			return engineErr("bad unclaimed pattern %q", u.Match)
+		}
+		unclaimedRe = append(unclaimedRe, re)
+	}
+	kindOK := func(k string) bool {
+		if len(plan.Kinds) == 0 || k == "cover" {
+			return true
+		}
+		for _, x := range plan.Kinds {
+			if x == k {
+				return true
+			}
+		}
+		return false
+	}
+	findingFor := func(name string) *Finding {
+		for i := range ff.Findings {
+			f := &ff.Findings[i]
+			if f.Property == *prop && f.Status == "finding" && f.Obligation == name {
+				return f
+			}
+		}
+		return nil
+	}
+	claimed, discharged, violations := 0, 0, 0
+	var undecided []map[string]any
+	var knownLines []string
+	var samples []map[string]any
+	replayDir := filepath.Join(*verif, "replays", *prop)
+	_ = os.MkdirAll(replayDir, 0o755)
+	seenFinding := map[string]bool{}
+	sort.Strings(names)
+	for _, n := range names {
+		a := byName[n]
+		isUnclaimed := ""
+		for i, re := range unclaimedRe {
+			if re.MatchString(n) {
+				isUnclaimed = plan.Unclaimed[i].Reason
+			}
+		}
+		if !kindOK(a.kind) {
+			isUnclaimed = "obligation kind " + a.kind + " is not part of this property's claim"
+		}
+		if isUnclaimed != "" {
+			st := "discharged"
+			if len(a.bad) > 0 {
+				st = res[a.bad[0]].Status
+			}
+			undecided = append(undecided, map[string]any{"obligation": n, "status": st, "reason": isUnclaimed})
+			continue
+		}
+		if a.cover {
+			if len(a.bad) > 0 {
+				r := res[a.bad[0]]
+				if r.Status == "unsat" {
+					return engineErr("vacuity: %s is unsatisfiable (contradictory precondition)", n)
+				}
+				return engineErr("vacuity: cover %s undecided (%s)", n, r.Status)
+			}
+			claimed++
+			discharged++
+			continue
+		}
+		if f := findingFor(n); f != nil {
+			seenFinding[n] = true
+			if len(a.bad) == 0 {
+				// the listed defect is gone: the obligation is simply discharged now
+				claimed++
+				discharged++
+				knownLines = append(knownLines, fmt.Sprintf("NOTE: listed finding no longer reproduces: property=%s %s", *prop, n))
+				continue
+			}
+			knownLines = append(knownLines, fmt.Sprintf("KNOWN-FINDING: property=%s %s %s", *prop, n, f.What))
+			undecided = append(undecided, map[string]any{"obligation": n, "status": "known-finding", "reason": f.What})
+			continue
+		}
+		claimed++
+		if len(a.bad) == 0 {
+			discharged++
+			if len(samples) < 6 {
+				ob := a.obs[0]
+				samples = append(samples, map[string]any{"obligation": n, "goal": ob.Goal, "at": relPos(ob.Pos.String(), *repo), "queries": len(a.obs), "solver": res[ob].Solver, "seconds": round3(a.secs)})
+			}
+			continue
+		}
+		violations++
+		ob := a.bad[0]
+		// prefer a sat answer (with model) among the failing queries
+		for _, b := range a.bad {
+			if res[b].Status == "sat" {
+				ob = b
+				break
+			}
+		}
+		r := res[ob]
+		path, confirmed := writeReplay(c, replayDir, *prop, *repo, *verif, ob, r)
+		suffix := ""
+		if !confirmed {
+			suffix = " no-failing-input-found"
+		}
+		fmt.Printf("VIOLATION property=%s replay=%s obligation=%s solver=%s answer=%s%s\n", *prop, path, n, r.Solver, r.Status, suffix)
+		fmt.Printf("  goal: %s\n  at: %s\n", ob.Goal, relPos(ob.Pos.String(), *repo))
+	}
+	// a listed finding whose obligation no longer exists is a stale list entry, not an error
+	for _, l := range knownLines {
+		fmt.Println(l)
+	}
+	// evidence
+	var fnList []map[string]any
+	for _, ur := range reps {
+		fnList = append(fnList, map[string]any{"unit": ur.rep.Name, "mode": map[bool]string{true: "64-bit machine integers", false: "mathematical integers"}[ur.unit.Mode == "bv"],
+			"paths": ur.rep.Paths, "returns": ur.rep.Returns, "obligation_queries": len(ur.rep.Obligations), "source_sha256": funcHashes[ur.rep.Name]})
+	}
+	trusted := []string{
+		"go/ssa (golang.org/x/tools v0.29.0) translation of the Go sources to SSA",
+		"SMT solvers z3 5.1.0, z3 4.8.12, cvc5 1.0.3 (first definite answer; sat/unsat disagreement aborts the check)",
+		"strings are sequences of bytes modelled by the SMT string theory; interior pointers to struct fields are not written through",
+		"termination of loops and calls is not proved (partial correctness)",
+	}
+	if containsMode(plan.Units, "") {
+		trusted = append(trusted, "integers: mathematical (no overflow obligations) for units in mode 'mathematical integers'")
+	}
+	for _, k := range sortedKeysB(usedExtern) {
+		trusted = append(trusted, "assumed contract / default model of external function: "+k)
+	}
+	trusted = append(trusted, plan.Trusted...)
+	var modular []string
+	for _, k := range sortedKeysB(usedModular) {
+		modular = append(modular, c.ShortName(k))
+	}
+	ev := map[string]any{
+		"property_id": *prop,
+		"tier":        *tier,
+		"seed":        *seed,
+		"level":       "proof",
+		"coverage": map[string]any{
+			"obligations":     claimed,
+			"discharged":      discharged,
+			"checker_cmd":     fmt.Sprintf("govc check -prop %s -tier %s (VC generation over go/ssa of %s; solvers z3-new/z3/cvc5 via stdin)", *prop, *tier, *repo),
+			"trusted_base":    trusted,
+			"samples":         samples,
+			"functions_under_contract": fnList,
+			"callee_contracts_used":    modular,
+			"queries":         len(seenQ),
+			"queries_by_backend": solverCount,
+			"solver_seconds":  round3(solverSecs),
+			"slowest_query_s": round3(maxSecs),
+			"load_seconds":    round3(loadS),
+			"solve_wall_seconds": round3(solveS),
+			"generated_not_claimed": undecided,
+			"known_findings":  knownLines,
+			"decided_clauses": plan.Decided,
+			"not_decided":     plan.NotDecided,
+			"assumption_scan": scanAssumptions(c),
+		},
+		"assumptions": trusted,
+		"wall_s":      round3(time.Since(t0).Seconds()),
+		"violations":  violations,
+	}
+	out, _ := json.MarshalIndent(ev, "", " ")
+	_ = os.MkdirAll(filepath.Join(*verif, "evidence"), 0o755)
+	if err := os.WriteFile(filepath.Join(*verif, "evidence", *prop+".json"), out, 0o644); err != nil {
+		return engineErr("cannot write evidence: %v", err)
+	}
+	fmt.Printf("property=%s tier=%s units=%d obligations(claimed)=%d discharged=%d known-findings=%d not-claimed=%d queries=%d slowest=%.2fs wall=%.1fs\n",
+		*prop, *tier, len(reps), claimed, discharged, len(knownLines), len(undecided), len(seenQ), maxSecs, time.Since(t0).Seconds())
+	if violations > 0 {
+		return 1
+	}
+	return 0
+}
+
+func flagSet(fs *flag.FlagSet, name string) bool {
+	set := false
+	fs.Visit(func(f *flag.Flag) {
+		if f.Name == name {
+			set = true
+		}
+	})
+	return set
+}
+
+func containsMode(us []Unit, m string) bool {
+	for _, u := range us {
+		if u.Mode == m {
+			return true
+		}
+	}
+	return false
+}
+
+func sortedKeysB(m map[string]bool) []string {
+	var ks []string
+	for k := range m {
+		ks = append(ks, k)
+	}
+	sort.Strings(ks)
+	return ks
+}
+
+func round3(f float64) float64 { return float64(int(f*1000+0.5)) / 1000 }
+
+func relPos(p, repo string) string {
+	return strings.TrimPrefix(p, repo+"/")
+}
+
+// scanAssumptions lists every assumed (extern / interface) contract and option that
+// weakens a proof obligation, mechanically, from the loaded spec files.
+func scanAssumptions(c *vc.Ctx) []string {
+	var out []string
+	for _, sf := range c.SpecFiles {
+		n := 0
+		for _, ct := range sf.Contracts {
+			if ct.Extern || ct.Opts["iface"] != "" || ct.Opts["trusted"] != "" {
+				n++
+			}
+		}
+		if n > 0 {
+			out = append(out, fmt.Sprintf("%s: %d assumed contracts", filepath.Base(sf.Path), n))
+		}
+	}
+	sort.Strings(out)
+	return out
+}
+
+func hashText(s string) string {
+	h := sha256.Sum256([]byte(s))
+	return hex.EncodeToString(h[:])
+}
